@@ -1085,6 +1085,7 @@ def run(ctx: vlib.Ctx):
         "BasicEncoder/Decoder of the dataclass, codec of the bare type) x alias kind (Annotated, NewType, none) x "
         "field type (List[int], Dict[str,int], date) x a subset of the 2 field slots + (level x key) slots with a variant "
         "per slot (dict both/one direction, pass_through, dict with pass_through, strategy object, use_annotations strategy); "
+        "x shape (field declared in the class / inherited / re-declared over a base declaration with decoy options; type written directly or through a TypeVar of a specialised generic dataclass; observed on the top object, on a Self-typed child, or on a nested dataclass; Config own/inherited, BaseConfig subclass/plain class); "
         "each case is observed in both directions; distinct = distinct (entry, alias, type, slots->variant, direction); "
         "non-trivial = at least one slot present. quick: fixed probes + 1500 sampled; thorough: every presence subset per entry point (format mixin: every subset of its 12 table slots, field slots sampled)")
     ctx.trusted += [
@@ -1092,6 +1093,9 @@ def run(ctx: vlib.Ctx):
         "PyK_strat.v primitives model isinstance/is_hashable/is_dialect_subclass/is_generic/callable and dict.get on type keys (validated on sampled tables each run against the Python originals)",
         "the re-entry of the registry for NewType supertypes and for use_annotations strategies (Strategies.applied, case_ok.kernel_nt) is hand-modelled and tied by the (M) comparison only",
         "the tagged callables identify the slot they are registered at; `is` identity distinguishes pass_through from the built-in copy",
+        "Registry.get (K5 registry_prepare): get_real_type / get_type_origin / is_annotated are function parameters (theorem C10_keys holds for all of them); the handler loop and ValueSpec.__setattr__ are matched textually; validated against the real Registry.get with the real primitives each run",
+        "CodeBuilder.dataclass_fields (K5): classes are abstracted to getattr(cls, '__dataclass_fields__') per MRO entry, own annotated names and cls.__dict__; x[-1:0:-1] / x[1:] are named primitives validated against CPython; that @dataclass fills __dataclass_fields__ as CPython does is not modelled (the real-class runs with inherited / re-declared fields cover it)",
+        "how the call dialect / format dialect reach Self-typed children and nested dataclasses (flag forwarding in pack/unpack) is not in the model: it is covered by the `position` dimension of the real-class runs only",
     ]
     ctx.assumptions += ["strategy values are pass_through, dicts with serialize/deserialize entries, or SerializationStrategy instances (other values are ignored by the code; covered only by the kernel validation)"]
     br = ctx.theorems("props/C10_precedence.vo", ["C10_precedence", "C10_empty", "C10_pass_through", "C10_sym", "C10_keys"],
@@ -1116,7 +1120,7 @@ def run(ctx: vlib.Ctx):
 
     cases = generate_cases(ctx)
     if not proofs_ok and ctx.quick():
-        for _ in range(2500):   # a broken obligation: search harder
+        for _ in range(1500):   # a broken obligation: search harder
             cases.append(gen_case(ctx.rng))
     import time as _t0
     t_run = _t0.time()
